@@ -32,7 +32,10 @@ def gen_value(rnd, known, cfgdir):
         return rnd.choice(["${VERIF_ENV_A}", "p/${VERIF_ENV_B}/q"]), "env"
     if r < 0.85:
         return rnd.choice([cfgdir, cfgdir + "/redun.db", "sqlite:///" + cfgdir + "/redun.db",
-                           cfgdir + ":" + cfgdir, os.path.dirname(cfgdir), "${VERIF_CFG}/db"]), "cfgdir"
+                           cfgdir + ":" + cfgdir, os.path.dirname(cfgdir), "${VERIF_CFG}/db",
+                           # the config dir and a literal dollar in one value
+                           cfgdir + "/cost-$$5", cfgdir + "/reports/$${VERIF_ENV_A}.html", "$$" + cfgdir + "$$",
+                           "${VERIF_CFG}/$$x"]), "cfgdir"
     return rnd.choice(["line1\n  line2", "a\n  b\n  c"]), "multiline"
 
 
